@@ -4,7 +4,8 @@ from vlib.common import explore
 
 ID = 'C02'
 LEVEL = 'exploration'
-RULE = ('(a) bounded exhaustive BFS over all sequences of single time/space bisections from six small abstract '
+RULE = ('[thorough tier additionally: a 300 s atheris/libFuzzer campaign on byte-encoded histories with the same oracle inside the target] '
+        '(a) bounded exhaustive BFS over all sequences of single time/space bisections from six small abstract '
         'initial meshes (glued 1x1, 1x2, 1x3, 2x1; open 1x2, 2x2), de-duplicated by refinement tree + half-edge link '
         'flags, every distinct state compared with the exact dyadic-box reference model (leaf set == smallest '
         '1-irregular refinement, geometry, bookkeeping, vertices, gmsh); (b) Hypothesis-generated operation '
@@ -30,6 +31,8 @@ def run(ctx):
     strat = meshdrive.history_cases(max_ops=30 if ctx.quick else 60,
                                     allow=('t', 'x', 'tx', 'unif', 'unifx', 'iso', 'aniso', 'grade'))
     explore(ctx, strat, lambda case, rec: meshdrive.run_history(case, rec, 'C02'), n)
+    if not ctx.quick and ctx.k == ctx.n - 1:
+        meshdrive.fuzz(ctx, 'C02', 300)
 
 
 def replay(case):
